@@ -1,7 +1,7 @@
 (* C06 -- lemmas.  Part 2: the invariant [Bound] is preserved by every evaluation step (add, the two interner passes,
-   roll-back of a failed build, slot recycling, running the unit), for every configuration that satisfies
-   [config_sound] -- in particular the one generated from /repo (Proofs_C06.config_now_sound);
-   the earlier variants of the scan and of the roll-back are refuted by witnesses. *)
+   roll-back of a failed build, slot recycling with its walk through the heap, running the unit), for every
+   configuration that satisfies [config_sound] -- in particular the one generated from /repo
+   (Proofs_C06.config_now_sound); the earlier variants of the scan and of the roll-back are refuted by witnesses. *)
 From Coq Require Import List Arith Bool Lia.
 From SV Require Import gen.Gen_C06 c06.Model_C06 c06.Proofs_C06.
 Import ListNotations.
@@ -100,27 +100,123 @@ Proof.
   - destruct H as [H1 H2]. split; auto.
 Qed.
 
-Definition gok (e : eng) (g : list val) : Prop := forall s, val_ok e (nth s g VVoid).
+(* ------------------------------------------------------------------ good values and states (heap cells) *)
 
-Lemma gok_le : forall e1 e2 g, owner_le e1 e2 -> gok e1 g -> gok e2 g.
-Proof. intros e1 e2 g L H s. eapply val_ok_le; eauto. Qed.
+Lemma vgood_le : forall e1 e2 hp G v, owner_le e1 e2 -> vgood e1 hp G v -> vgood e2 hp G v.
+Proof. intros e1 e2 hp G v L [H1 H2]. split; [eapply val_ok_le; eauto | exact H2]. Qed.
 
-Lemma gok_set_nth : forall e g n v, gok e g -> val_ok e v -> gok e (set_nth n v g).
+Lemma sok_le : forall e1 e2 G g hp, owner_le e1 e2 -> sok e1 G g hp -> sok e2 G g hp.
 Proof.
-  intros e g n v G V s. rewrite nth_set_nth.
-  destruct (Nat.eqb s n); [destruct (Nat.ltb n (length g)); [exact V | apply G] | apply G].
+  intros e1 e2 G g hp L [H1 H2]. split.
+  - intros s. eapply vgood_le; eauto.
+  - intros a Ha. eapply vgood_le; eauto.
 Qed.
 
-Lemma gok_define_idx : forall e g n v, gok e g -> val_ok e v -> gok e (define_idx n v g).
+(* the heap grew (and cells may have been assigned): the good set grew with it *)
+Definition ext (hp : list val) (G : list nat) (hp' : list val) (G' : list nat) : Prop :=
+  incl G G' /\ length hp <= length hp' /\ (forall a, length hp <= a -> a < length hp' -> In a G').
+
+Lemma ext_refl : forall hp G, ext hp G hp G.
+Proof. intros hp G. split; [apply incl_refl|]. split; [lia|]. intros a H1 H2. lia. Qed.
+
+Lemma ext_trans : forall h1 G1 h2 G2 h3 G3, ext h1 G1 h2 G2 -> ext h2 G2 h3 G3 -> ext h1 G1 h3 G3.
 Proof.
-  intros e g n v G V s. unfold define_idx. rewrite nth_set_nth_pad.
-  destruct (Nat.eqb s n); [exact V | apply G].
+  intros h1 G1 h2 G2 h3 G3 [A1 [A2 A3]] [B1 [B2 B3]]. split; [eapply incl_tran; eauto|]. split; [lia|].
+  intros a H1 H2. destruct (lt_dec a (length h2)); [apply B1, A3; lia | apply B3; lia].
+Qed.
+
+Lemma vgood_ext : forall e hp G hp' G' v, ext hp G hp' G' -> vgood e hp G v -> vgood e hp' G' v.
+Proof.
+  intros e hp G hp' G' v [A1 [A2 A3]] [H1 H2]. split; [exact H1|].
+  intros a Ha Hlt. destruct (lt_dec a (length hp)); [apply A1, H2; assumption | apply A3; lia].
+Qed.
+
+Lemma vgood_atom_int : forall e hp G n, vgood e hp G (VInt n).
+Proof. intros. split; [exact I | intros a []]. Qed.
+Lemma vgood_void : forall e hp G, vgood e hp G VVoid.
+Proof. intros. split; [exact I | intros a []]. Qed.
+Lemma vgood_nil : forall e hp G, vgood e hp G VNil.
+Proof. intros. split; [exact I | intros a []]. Qed.
+
+Lemma vgood_pair : forall e hp G a b, vgood e hp G (VPair a b) <-> vgood e hp G a /\ vgood e hp G b.
+Proof.
+  intros e hp G a b. unfold vgood, cells_ok. simpl. split.
+  - intros [[V1 V2] C]. split; (split; [assumption|]); intros x Hx; apply C; apply in_or_app; [left|right]; exact Hx.
+  - intros [[V1 C1] [V2 C2]]. split; [split; assumption|]. intros x Hx. apply in_app_or in Hx. destruct Hx; [apply C1 | apply C2]; assumption.
+Qed.
+
+Lemma vgood_clo_caps : forall e hp G h b c, vgood e hp G (VClo h b c) -> vgood e hp G c.
+Proof. intros e hp G h b c [[V1 V2] C]. split; [exact V2 | exact C]. Qed.
+
+Lemma vgood_ref : forall e hp G a, vgood e hp G (VRef a) <-> (a < length hp -> In a G).
+Proof.
+  intros e hp G a. unfold vgood, cells_ok. simpl. split.
+  - intros [_ C]. apply C. left. reflexivity.
+  - intros H. split; [exact I|]. intros x [Hx|[]]. subst. exact H.
+Qed.
+
+Lemma sok_cell : forall e G g hp a, sok e G g hp -> vgood e hp G (VRef a) -> vgood e hp G (nth a hp VVoid).
+Proof.
+  intros e G g hp a [S1 S2] V. destruct (lt_dec a (length hp)) as [L|L].
+  - apply S2. apply (proj1 (vgood_ref e hp G a) V L).
+  - rewrite nth_overflow; [apply vgood_void | lia].
+Qed.
+
+Lemma sok_set_glob : forall e G g hp n v, sok e G g hp -> vgood e hp G v -> sok e G (set_nth n v g) hp.
+Proof.
+  intros e G g hp n v [S1 S2] V. split; [|exact S2]. intros s. rewrite nth_set_nth.
+  destruct (Nat.eqb s n); [destruct (Nat.ltb n (length g)); [exact V | apply S1] | apply S1].
+Qed.
+
+Lemma sok_define_idx : forall e G g hp n v, sok e G g hp -> vgood e hp G v -> sok e G (define_idx n v g) hp.
+Proof.
+  intros e G g hp n v [S1 S2] V. split; [|exact S2]. intros s. unfold define_idx. rewrite nth_set_nth_pad.
+  destruct (Nat.eqb s n); [exact V | apply S1].
+Qed.
+
+Lemma sok_set_cell : forall e G g hp a v, sok e G g hp -> vgood e hp G v -> sok e G g (set_nth a v hp).
+Proof.
+  intros e G g hp a v [S1 S2] V.
+  assert (K : forall w, vgood e hp G w -> vgood e (set_nth a v hp) G w).
+  { intros w [W1 W2]. split; [exact W1|]. intros x Hx Hl. rewrite length_set_nth in Hl. apply W2; assumption. }
+  split.
+  - intros s. apply K, S1.
+  - intros b Hb. rewrite nth_set_nth. destruct (Nat.eqb b a); [destruct (Nat.ltb a (length hp))|]; apply K; auto.
+Qed.
+
+Lemma sok_alloc : forall e G g hp v, sok e G g hp -> vgood e hp G v ->
+  sok e (length hp :: G) g (hp ++ [v]) /\ ext hp G (hp ++ [v]) (length hp :: G).
+Proof.
+  intros e G g hp v [S1 S2] V.
+  assert (E : ext hp G (hp ++ [v]) (length hp :: G)).
+  { split; [intros x Hx; right; exact Hx|]. split; [rewrite app_length; simpl; lia|].
+    intros a H1 H2. rewrite app_length in H2. simpl in H2. left. lia. }
+  split; [|exact E]. split.
+  - intros s. eapply vgood_ext; [exact E | apply S1].
+  - intros a [Ha|Ha].
+    + subst a. rewrite nth_middle. eapply vgood_ext; [exact E | exact V].
+    + destruct (lt_dec a (length hp)) as [L|L].
+      * rewrite app_nth1; [|exact L]. eapply vgood_ext; [exact E | apply S2; exact Ha].
+      * destruct (Nat.eq_dec a (length hp)) as [Q|Q].
+        -- subst a. rewrite nth_middle. eapply vgood_ext; [exact E | exact V].
+        -- rewrite nth_overflow; [apply vgood_void | rewrite app_length; simpl; lia].
+Qed.
+
+Lemma dig_void : forall f hp, dig f hp VVoid = VVoid.
+Proof. intros [|f] hp; reflexivity. Qed.
+
+Lemma dig_good : forall e G g hp, sok e G g hp -> forall f v, vgood e hp G v -> vgood e hp G (dig f hp v).
+Proof.
+  intros e G g hp S. induction f as [|f IH]; intros v V; simpl; [exact V|].
+  destruct v; try exact V.
+  - apply IH. apply (proj1 (vgood_pair _ _ _ _ _) V).
+  - apply IH. eapply sok_cell; eauto.
 Qed.
 
 (* ------------------------------------------------------------------ calls *)
 
 (* the body loop of [call], with the recursive call abstracted *)
-Fixpoint go_body (callf : list val -> val -> nat -> list val * option val)
+Fixpoint go_body (callf : list val -> val -> nat -> list val * option val) (digf : val -> val)
          (h : option opcode) (caps : val) (arg : nat) (idx : nat) (b : list instr) (g : list val)
   : list val * option val :=
   match b with
@@ -140,23 +236,23 @@ Fixpoint go_body (callf : list val -> val -> nat -> list val * option val)
           then let '(g', r) := callf g (nth (i_pay i) g VVoid) a in (g', option_map Some r)
           else (g, None)
         else if op_eqb o Op_READCAPTURED then
-          match caps with
-          | VClo _ _ _ => let '(g', r) := callf g caps a in (g', option_map Some r)
-          | _ => (g, Some (Some caps))
+          match digf caps with
+          | VClo h' b' c' => let '(g', r) := callf g (VClo h' b' c') a in (g', option_map Some r)
+          | other => (g, Some (Some other))
           end
         else (g, Some None) in
       match r1 with
       | None => (g1, None)
       | Some out =>
-          let '(g2, r2) := go_body callf h caps arg (S idx) rest g1 in
+          let '(g2, r2) := go_body callf digf h caps arg (S idx) rest g1 in
           (g2, match out with Some v => option_map (VPair v) r2 | None => r2 end)
       end
   end.
 
-Lemma call_unfold : forall fuel g h body caps arg,
-  call (S fuel) g (VClo h body caps) arg = go_body (call fuel) h caps arg 0 body g.
+Lemma call_unfold : forall fuel hp g h body caps arg,
+  call (S fuel) hp g (VClo h body caps) arg = go_body (call fuel hp) (dig fuel hp) h caps arg 0 body g.
 Proof.
-  intros fuel g h body caps arg. cbn [call]. generalize 0 as idx. revert g.
+  intros fuel hp g h body caps arg. cbn [call]. generalize 0 as idx. revert g.
   induction body as [|i rest IH]; intros g idx.
   - reflexivity.
   - cbn [go_body].
@@ -165,22 +261,22 @@ Proof.
     rewrite IH. reflexivity.
 Qed.
 
-Definition callf_ok (e : eng) (callf : list val -> val -> nat -> list val * option val) : Prop :=
-  forall g f arg, gok e g -> val_ok e f ->
-    gok e (fst (callf g f arg)) /\ (forall v, snd (callf g f arg) = Some v -> val_ok e v) /\
+Definition callf_ok (e : eng) (G : list nat) (hp : list val) (callf : list val -> val -> nat -> list val * option val) : Prop :=
+  forall g f arg, sok e G g hp -> vgood e hp G f ->
+    sok e G (fst (callf g f arg)) hp /\ (forall v, snd (callf g f arg) = Some v -> vgood e hp G v) /\
     length (fst (callf g f arg)) = length g.
 
-Lemma go_body_ok : forall e callf h caps arg, callf_ok e callf -> val_ok e caps ->
-  forall b idx g, gok e g ->
-    gok e (fst (go_body callf h caps arg idx b g)) /\
-    (forall v, snd (go_body callf h caps arg idx b g) = Some v -> val_ok e v) /\
-    length (fst (go_body callf h caps arg idx b g)) = length g.
+Lemma go_body_ok : forall e G hp callf digf h caps arg, callf_ok e G hp callf ->
+  (forall g, sok e G g hp -> vgood e hp G (digf caps)) ->
+  forall b idx g, sok e G g hp ->
+    sok e G (fst (go_body callf digf h caps arg idx b g)) hp /\
+    (forall v, snd (go_body callf digf h caps arg idx b g) = Some v -> vgood e hp G v) /\
+    length (fst (go_body callf digf h caps arg idx b g)) = length g.
 Proof.
-  intros e callf h caps arg CF VC. induction b as [|i rest IH]; intros idx g G.
-  - simpl. split; [exact G|]. split; [|reflexivity]. intros v Hv. inversion Hv. exact I.
-  - simpl.
+  intros e G hp callf digf h caps arg CF VC. induction b as [|i rest IH]; intros idx g SK.
+  - simpl. split; [exact SK|]. split; [|reflexivity]. intros v Hv. inversion Hv. apply vgood_nil.
+  - cbn [go_body].
     set (o := true_op h idx i). set (a := match i_imm i with Some k => k | None => arg end).
-    (* the step *)
     assert (STEP : forall g1 r1,
       (if op_eqb o Op_PUSH then
           (g, if Nat.ltb (i_pay i) (length g) then Some (Some (nth (i_pay i) g VVoid)) else None)
@@ -193,53 +289,55 @@ Proof.
           then let '(g', r) := callf g (nth (i_pay i) g VVoid) a in (g', option_map Some r)
           else (g, None)
         else if op_eqb o Op_READCAPTURED then
-          match caps with
-          | VClo _ _ _ => let '(g', r) := callf g caps a in (g', option_map Some r)
-          | _ => (g, Some (Some caps))
+          match digf caps with
+          | VClo h' b' c' => let '(g', r) := callf g (VClo h' b' c') a in (g', option_map Some r)
+          | other => (g, Some (Some other))
           end
         else (g, Some None)) = (g1, r1) ->
-      gok e g1 /\ length g1 = length g /\ (forall v, r1 = Some (Some v) -> val_ok e v)).
-    { intros g1 r1 E.
+      sok e G g1 hp /\ length g1 = length g /\ (forall v, r1 = Some (Some v) -> vgood e hp G v)).
+    { intros g1 r1 E. pose proof SK as [S1 S2].
       destruct (op_eqb o Op_PUSH).
-      { injection E as <- <-. split; [exact G|]. split; [reflexivity|].
-        intros v Hv. destruct (Nat.ltb (i_pay i) (length g)); inversion Hv. apply G. }
+      { injection E as <- <-. split; [exact SK|]. split; [reflexivity|].
+        intros v Hv. destruct (Nat.ltb (i_pay i) (length g)); inversion Hv. apply S1. }
       destruct (op_eqb o Op_SET).
       { destruct (Nat.ltb (i_pay i) (length g)); injection E as <- <-.
-        - split; [apply gok_set_nth; [exact G | exact I]|]. split; [apply length_set_nth|].
-          intros v Hv. inversion Hv. apply G.
-        - split; [exact G|]. split; [reflexivity|]. intros v Hv. discriminate. }
+        - split; [apply sok_set_glob; [exact SK | apply vgood_atom_int]|]. split; [apply length_set_nth|].
+          intros v Hv. inversion Hv. apply S1.
+        - split; [exact SK|]. split; [reflexivity|]. intros v Hv. discriminate. }
       destruct (is_call_op o).
       { destruct (Nat.ltb (i_pay i) (length g)).
-        - destruct (CF g (nth (i_pay i) g VVoid) a G (G _)) as [C1 [C2 C3]].
+        - destruct (CF g (nth (i_pay i) g VVoid) a SK (S1 _)) as [C1 [C2 C3]].
           destruct (callf g (nth (i_pay i) g VVoid) a) as [g' r]. simpl in *. injection E as <- <-.
           split; [exact C1|]. split; [exact C3|]. intros v Hv. destruct r; inversion Hv; subst. apply C2. reflexivity.
-        - injection E as <- <-. split; [exact G|]. split; [reflexivity|]. intros v Hv. discriminate. }
+        - injection E as <- <-. split; [exact SK|]. split; [reflexivity|]. intros v Hv. discriminate. }
       destruct (op_eqb o Op_READCAPTURED).
-      { destruct caps as [n| | |hdr body caps'|pa pb];
-          try (injection E as <- <-; split; [exact G|]; split; [reflexivity|]; intros v Hv; inversion Hv; subst; exact VC).
-        destruct (CF g (VClo hdr body caps') a G VC) as [C1 [C2 C3]].
+      { pose proof (VC g SK) as VD.
+        destruct (digf caps) as [n| | |hdr body caps'|pa pb|ra];
+          try (injection E as <- <-; split; [exact SK|]; split; [reflexivity|]; intros v Hv; inversion Hv; subst; exact VD).
+        destruct (CF g (VClo hdr body caps') a SK VD) as [C1 [C2 C3]].
         destruct (callf g (VClo hdr body caps') a) as [g' r]. simpl in *. injection E as <- <-.
         split; [exact C1|]. split; [exact C3|]. intros v Hv. destruct r; inversion Hv; subst. apply C2. reflexivity. }
-      injection E as <- <-. split; [exact G|]. split; [reflexivity|]. intros v Hv. discriminate. }
+      injection E as <- <-. split; [exact SK|]. split; [reflexivity|]. intros v Hv. discriminate. }
     match goal with |- context [let '(g1, r1) := ?X in _] => destruct X as [g1 r1] eqn:EX end.
-    destruct (STEP g1 r1 eq_refl) as [S1 [S2 S3]].
+    destruct (STEP g1 r1 eq_refl) as [T1 [T2 T3]].
     destruct r1 as [out|].
-    + destruct (IH (S idx) g1 S1) as [I1 [I2 I3]].
-      destruct (go_body callf h caps arg (S idx) rest g1) as [g2 r2]. simpl in *.
+    + destruct (IH (S idx) g1 T1) as [I1 [I2 I3]].
+      destruct (go_body callf digf h caps arg (S idx) rest g1) as [g2 r2]. simpl in *.
       split; [exact I1|]. split; [|lia].
       intros v Hv. destruct out as [w|].
-      * destruct r2 as [r2v|]; inversion Hv; subst. simpl. split; [apply S3; reflexivity | apply I2; reflexivity].
+      * destruct r2 as [r2v|]; inversion Hv; subst. apply vgood_pair. split; [apply T3; reflexivity | apply I2; reflexivity].
       * apply I2. exact Hv.
-    + simpl. split; [exact S1|]. split; [|exact S2]. intros v Hv. discriminate.
+    + simpl. split; [exact T1|]. split; [|exact T2]. intros v Hv. discriminate.
 Qed.
 
-Lemma call_ok : forall e fuel, callf_ok e (call fuel).
+Lemma call_ok : forall e G hp fuel, callf_ok e G hp (call fuel hp).
 Proof.
-  intros e. induction fuel as [|fuel IH]; intros g f arg G V.
-  - simpl. split; [exact G|]. split; [intros v Hv; discriminate | reflexivity].
-  - destruct f; try (simpl; split; [exact G|]; split; [intros v Hv; discriminate | reflexivity]).
-    rewrite call_unfold. simpl in V. destruct V as [V1 V2].
+  intros e G hp. induction fuel as [|fuel IH]; intros g f arg SK V.
+  - simpl. split; [exact SK|]. split; [intros v Hv; discriminate | reflexivity].
+  - destruct f; try (simpl; split; [exact SK|]; split; [intros v Hv; discriminate | reflexivity]).
+    rewrite call_unfold.
     apply go_body_ok; auto.
+    intros g' S'. eapply dig_good; [exact S'|]. eapply vgood_clo_caps; exact V.
 Qed.
 
 
@@ -247,8 +345,11 @@ Qed.
 
 Fixpoint rexpr_okP (P : instr -> Prop) (r : rexpr) : Prop :=
   match r with
-  | RLam _ body cap => Forall P body /\ rexpr_okP P cap
+  | RLam _ _ body cap => Forall P body /\ rexpr_okP P cap
   | RPair a b => rexpr_okP P a /\ rexpr_okP P b
+  | RSetCell _ a b => rexpr_okP P a /\ rexpr_okP P b
+  | RBox _ a => rexpr_okP P a
+  | RUnbox a => rexpr_okP P a
   | RCar a => rexpr_okP P a
   | RCdr a => rexpr_okP P a
   | RCall a _ => rexpr_okP P a
@@ -266,6 +367,7 @@ Lemma rexpr_okP_impl : forall (P Q : instr -> Prop) r, (forall i, P i -> Q i) ->
 Proof.
   intros P Q r PQ. induction r; simpl; auto.
   - intros [H1 H2]. split; [eapply Forall_impl; eauto | auto].
+  - intros [H1 H2]. split; auto.
   - intros [H1 H2]. split; auto.
 Qed.
 
@@ -305,84 +407,150 @@ Proof.
   - eapply body_ok_hdr_S. exact B2.
 Qed.
 
-Lemma eval_ok : forall e fuel x g, gok e g -> rexpr_okP (instr_run_ok e) x ->
-  gok e (fst (eval fuel g x)) /\ (forall v, snd (eval fuel g x) = Some v -> val_ok e v) /\
-  length (fst (eval fuel g x)) = length g.
+Lemma mk_closure_good : forall e hp G jit body caps,
+  body_ok e None 0 body -> vgood e hp G caps -> vgood e hp G (mk_closure jit body caps).
 Proof.
-  intros e fuel x. induction x; intros g G R; simpl in *.
-  - split; [exact G|]. split; [intros v Hv; inversion Hv; exact I | reflexivity].
-  - split; [exact G|]. split; [intros v Hv; inversion Hv; exact I | reflexivity].
-  - split; [exact G|]. split; [|reflexivity]. intros v Hv. destruct (Nat.ltb s (length g)); inversion Hv. apply G.
-  - destruct R as [R1 R2]. destruct (IHx g G R2) as [I1 [I2 I3]].
-    destruct (eval fuel g x) as [g1 c]. simpl in *. split; [exact I1|]. split; [|exact I3].
-    intros v Hv. destruct c as [c|]; inversion Hv; subst.
-    apply mk_closure_ok; [apply Forall_body_ok; exact R1 | apply I2; reflexivity].
-  - destruct R as [R1 R2]. destruct (IHx1 g G R1) as [I1 [I2 I3]].
-    destruct (eval fuel g x1) as [g1 va]. simpl in *. destruct va as [va|].
-    + destruct (IHx2 g1 I1 R2) as [J1 [J2 J3]]. destruct (eval fuel g1 x2) as [g2 vb]. simpl in *.
-      split; [exact J1|]. split; [|lia]. intros v Hv. destruct vb as [vb|]; inversion Hv; subst.
-      simpl. split; [apply I2; reflexivity | apply J2; reflexivity].
-    + simpl. split; [exact I1|]. split; [intros v Hv; discriminate | exact I3].
-  - destruct (IHx g G R) as [I1 [I2 I3]]. destruct (eval fuel g x) as [g1 v1]. simpl in *.
-    split; [exact I1|]. split; [|exact I3]. intros v Hv.
-    destruct v1 as [[| | | |p q]|]; inversion Hv; subst. destruct (I2 _ eq_refl) as [A B]. exact A.
-  - destruct (IHx g G R) as [I1 [I2 I3]]. destruct (eval fuel g x) as [g1 v1]. simpl in *.
-    split; [exact I1|]. split; [|exact I3]. intros v Hv.
-    destruct v1 as [[| | | |p q]|]; inversion Hv; subst. destruct (I2 _ eq_refl) as [A B]. exact B.
-  - destruct (IHx g G R) as [I1 [I2 I3]]. destruct (eval fuel g x) as [g1 vf]. simpl in *.
-    destruct vf as [vf|].
-    + destruct (call_ok e fuel g1 vf arg I1 (I2 _ eq_refl)) as [C1 [C2 C3]].
-      split; [exact C1|]. split; [exact C2 | lia].
-    + simpl. split; [exact I1|]. split; [intros v Hv; discriminate | exact I3].
-  - destruct (IHx g G R) as [I1 [I2 I3]]. destruct (eval fuel g x) as [g1 v1]. simpl in *.
-    destruct v1 as [v1|].
-    + destruct (Nat.ltb s (length g1)); simpl.
-      * split; [apply gok_set_nth; [exact I1 | apply I2; reflexivity]|]. split; [|rewrite length_set_nth; exact I3].
-        intros v Hv. inversion Hv. apply I1.
-      * split; [exact I1|]. split; [intros v Hv; discriminate | exact I3].
-    + simpl. split; [exact I1|]. split; [intros v Hv; discriminate | exact I3].
-  - split; [exact G|]. split; [intros v Hv; discriminate | reflexivity].
+  intros e hp G jit body caps B [C1 C2]. split; [apply mk_closure_ok; assumption|].
+  unfold mk_closure. destruct jit; [destruct body|]; simpl; exact C2.
 Qed.
 
-Lemma run_forms_ok : forall e fuel L code g, gok e g -> length g <= L ->
-  Forall (rform_okP (instr_run_ok e) L) code ->
-  gok e (fst (run_forms fuel g code)) /\ length (fst (run_forms fuel g code)) <= L.
+Definition eval_post (e : eng) (G : list nat) (g hp : list val) (r : st * option val) : Prop :=
+  exists G', ext hp G (snd (fst r)) G' /\ sok e G' (fst (fst r)) (snd (fst r)) /\
+             (forall v, snd r = Some v -> vgood e (snd (fst r)) G' v) /\
+             length (fst (fst r)) = length g.
+
+Lemma eval_post_fail : forall e G g hp g' hp' G', ext hp G hp' G' -> sok e G' g' hp' -> length g' = length g ->
+  eval_post e G g hp ((g', hp'), None).
+Proof. intros. exists G'. simpl. split; [assumption|]. split; [assumption|]. split; [intros v Hv; discriminate | assumption]. Qed.
+
+Lemma eval_ok : forall e fuel x G g hp, sok e G g hp -> rexpr_okP (instr_run_ok e) x ->
+  eval_post e G g hp (eval fuel (g, hp) x).
 Proof.
-  intros e fuel L code. induction code as [|f r IH]; intros g G Len F; simpl.
-  - split; assumption.
+  intros e fuel x. induction x; intros G g hp SK R; simpl in R; cbn [eval].
+  - exists G. simpl. split; [apply ext_refl|]. split; [exact SK|]. split; [intros v Hv; inversion Hv; apply vgood_atom_int | reflexivity].
+  - exists G. simpl. split; [apply ext_refl|]. split; [exact SK|]. split; [intros v Hv; inversion Hv; apply vgood_nil | reflexivity].
+  - exists G. simpl. split; [apply ext_refl|]. split; [exact SK|]. split; [|reflexivity].
+    intros v Hv. destruct (Nat.ltb s (length g)); inversion Hv. apply (proj1 SK).
+  - (* RLam *)
+    destruct R as [R1 R2]. destruct (IHx G g hp SK R2) as [G1 [E1 [S1 [V1 L1]]]].
+    destruct (eval fuel (g, hp) x) as [[g1 hp1] c]. simpl in *. destruct c as [c|].
+    + destruct hc.
+      * destruct (sok_alloc e G1 g1 hp1 c S1 (V1 _ eq_refl)) as [S2 E2].
+        exists (length hp1 :: G1). simpl. split; [eapply ext_trans; eauto|]. split; [exact S2|]. split; [|exact L1].
+        intros v Hv. inversion Hv; subst. apply mk_closure_good; [apply Forall_body_ok; exact R1|].
+        apply vgood_ref. intros _. left. reflexivity.
+      * exists G1. simpl. split; [exact E1|]. split; [exact S1|]. split; [|exact L1].
+        intros v Hv. inversion Hv; subst. apply mk_closure_good; [apply Forall_body_ok; exact R1 | apply V1; reflexivity].
+    + apply eval_post_fail with (G' := G1); assumption.
+  - (* RBox *)
+    destruct (IHx G g hp SK R) as [G1 [E1 [S1 [V1 L1]]]].
+    destruct (eval fuel (g, hp) x) as [[g1 hp1] c]. simpl in *. destruct c as [c|].
+    + assert (VC : vgood e hp1 G1 (cell_content vec c)).
+      { unfold cell_content. destruct vec; [apply vgood_pair; split; [apply V1; reflexivity | apply vgood_nil] | apply V1; reflexivity]. }
+      destruct (sok_alloc e G1 g1 hp1 _ S1 VC) as [S2 E2].
+      exists (length hp1 :: G1). simpl. split; [eapply ext_trans; eauto|]. split; [exact S2|]. split; [|exact L1].
+      intros v Hv. inversion Hv; subst. apply vgood_ref. intros _. left. reflexivity.
+    + apply eval_post_fail with (G' := G1); assumption.
+  - (* RUnbox *)
+    destruct (IHx G g hp SK R) as [G1 [E1 [S1 [V1 L1]]]].
+    destruct (eval fuel (g, hp) x) as [[g1 hp1] c]. simpl in *.
+    exists G1. simpl. split; [exact E1|]. split; [exact S1|]. split; [|exact L1].
+    intros v Hv. destruct c as [[| | | | |a]|]; try discriminate.
+    destruct (Nat.ltb a (length hp1)); inversion Hv; subst.
+    eapply sok_cell; [exact S1 | apply V1; reflexivity].
+  - (* RSetCell *)
+    destruct R as [R1 R2]. destruct (IHx1 G g hp SK R1) as [G1 [E1 [S1 [V1 L1]]]].
+    destruct (eval fuel (g, hp) x1) as [[g1 hp1] va]. simpl in *.
+    destruct va as [[| | | | |a]|]; try (apply eval_post_fail with (G' := G1); assumption).
+    destruct (IHx2 G1 g1 hp1 S1 R2) as [G2 [E2 [S2 [V2 L2]]]].
+    destruct (eval fuel (g1, hp1) x2) as [[g2 hp2] vb]. simpl in *.
+    destruct vb as [vb|]; [|apply eval_post_fail with (G' := G2); [eapply ext_trans; eauto | assumption | lia]].
+    destruct (Nat.ltb a (length hp2)) eqn:LT; [|apply eval_post_fail with (G' := G2); [eapply ext_trans; eauto | assumption | lia]].
+    assert (VC : vgood e hp2 G2 (cell_content vec vb)).
+    { unfold cell_content. destruct vec; [apply vgood_pair; split; [apply V2; reflexivity | apply vgood_nil] | apply V2; reflexivity]. }
+    exists G2. simpl. split.
+    + destruct (ext_trans _ _ _ _ _ _ E1 E2) as [A1 [A2 A3]]. split; [exact A1|]. rewrite length_set_nth. split; assumption.
+    + split; [apply sok_set_cell; assumption|]. split; [|lia].
+      intros v Hv. inversion Hv. split; [exact I | intros x []].
+  - (* RPair *)
+    destruct R as [R1 R2]. destruct (IHx1 G g hp SK R1) as [G1 [E1 [S1 [V1 L1]]]].
+    destruct (eval fuel (g, hp) x1) as [[g1 hp1] va]. simpl in *. destruct va as [va|].
+    + destruct (IHx2 G1 g1 hp1 S1 R2) as [G2 [E2 [S2 [V2 L2]]]].
+      destruct (eval fuel (g1, hp1) x2) as [[g2 hp2] vb]. simpl in *.
+      exists G2. simpl. split; [eapply ext_trans; eauto|]. split; [exact S2|]. split; [|lia].
+      intros v Hv. destruct vb as [vb|]; inversion Hv; subst. apply vgood_pair.
+      split; [eapply vgood_ext; [exact E2 | apply V1; reflexivity] | apply V2; reflexivity].
+    + apply eval_post_fail with (G' := G1); assumption.
+  - (* RCar *)
+    destruct (IHx G g hp SK R) as [G1 [E1 [S1 [V1 L1]]]].
+    destruct (eval fuel (g, hp) x) as [[g1 hp1] c]. simpl in *.
+    exists G1. simpl. split; [exact E1|]. split; [exact S1|]. split; [|exact L1].
+    intros v Hv. destruct c as [[| | | |p q|]|]; inversion Hv; subst.
+    apply (proj1 (vgood_pair _ _ _ _ _) (V1 _ eq_refl)).
+  - (* RCdr *)
+    destruct (IHx G g hp SK R) as [G1 [E1 [S1 [V1 L1]]]].
+    destruct (eval fuel (g, hp) x) as [[g1 hp1] c]. simpl in *.
+    exists G1. simpl. split; [exact E1|]. split; [exact S1|]. split; [|exact L1].
+    intros v Hv. destruct c as [[| | | |p q|]|]; inversion Hv; subst.
+    apply (proj1 (vgood_pair _ _ _ _ _) (V1 _ eq_refl)).
+  - (* RCall *)
+    destruct (IHx G g hp SK R) as [G1 [E1 [S1 [V1 L1]]]].
+    destruct (eval fuel (g, hp) x) as [[g1 hp1] vf]. simpl in *. destruct vf as [vf|].
+    + destruct (call_ok e G1 hp1 fuel g1 vf arg S1 (V1 _ eq_refl)) as [C1 [C2 C3]].
+      destruct (call fuel hp1 g1 vf arg) as [g' r]. simpl in *.
+      exists G1. simpl. split; [exact E1|]. split; [exact C1|]. split; [exact C2 | lia].
+    + apply eval_post_fail with (G' := G1); assumption.
+  - (* RSet *)
+    destruct (IHx G g hp SK R) as [G1 [E1 [S1 [V1 L1]]]].
+    destruct (eval fuel (g, hp) x) as [[g1 hp1] v1]. simpl in *. destruct v1 as [v1|].
+    + destruct (Nat.ltb s (length g1)); simpl.
+      * exists G1. simpl. split; [exact E1|]. split; [apply sok_set_glob; [exact S1 | apply V1; reflexivity]|].
+        split; [|rewrite length_set_nth; exact L1]. intros v Hv. inversion Hv. apply (proj1 S1).
+      * apply eval_post_fail with (G' := G1); assumption.
+    + apply eval_post_fail with (G' := G1); assumption.
+  - apply eval_post_fail with (G' := G); [apply ext_refl | exact SK | reflexivity].
+Qed.
+
+Lemma run_forms_ok : forall e fuel L code G g hp, sok e G g hp -> length g <= L ->
+  Forall (rform_okP (instr_run_ok e) L) code ->
+  exists G', sok e G' (fst (fst (run_forms fuel (g, hp) code))) (snd (fst (run_forms fuel (g, hp) code))) /\
+             length (fst (fst (run_forms fuel (g, hp) code))) <= L.
+Proof.
+  intros e fuel L code. induction code as [|f r IH]; intros G g hp SK Len F; cbn [run_forms].
+  - exists G. simpl. split; assumption.
   - inversion F as [|? ? F1 F2]; subst. destruct f as [s a|a]; simpl in F1.
-    + destruct F1 as [SL RA]. destruct (eval_ok e fuel a g G RA) as [I1 [I2 I3]].
-      destruct (eval fuel g a) as [g1 v]. simpl in *. destruct v as [v|]; simpl.
-      * assert (G2 : gok e (define_idx s v g1)) by (apply gok_define_idx; [exact I1 | apply I2; reflexivity]).
+    + destruct F1 as [SL RA]. destruct (eval_ok e fuel a G g hp SK RA) as [G1 [E1 [S1 [V1 L1]]]].
+      destruct (eval fuel (g, hp) a) as [[g1 hp1] v]. simpl in *. destruct v as [v|].
+      * assert (S2 : sok e G1 (define_idx s v g1) hp1) by (apply sok_define_idx; [exact S1 | apply V1; reflexivity]).
         assert (L2 : length (define_idx s v g1) <= L).
         { unfold define_idx. rewrite length_set_nth_pad. lia. }
-        destruct (IH _ G2 L2 F2) as [J1 J2].
-        destruct (run_forms fuel (define_idx s v g1) r) as [g2 vs]. simpl in *. split; assumption.
-      * split; [exact I1 | lia].
-    + destruct (eval_ok e fuel a g G F1) as [I1 [I2 I3]].
-      destruct (eval fuel g a) as [g1 v]. simpl in *. destruct v as [v|]; simpl.
-      * assert (L2 : length g1 <= L) by lia. destruct (IH _ I1 L2 F2) as [J1 J2].
-        destruct (run_forms fuel g1 r) as [g2 vs]. simpl in *. split; assumption.
-      * split; [exact I1 | lia].
+        destruct (IH G1 _ hp1 S2 L2 F2) as [G2 [J1 J2]].
+        destruct (run_forms fuel (define_idx s v g1, hp1) r) as [[g2 hp2] vs]. simpl in *. exists G2. split; assumption.
+      * exists G1. simpl. split; [exact S1 | lia].
+    + destruct (eval_ok e fuel a G g hp SK F1) as [G1 [E1 [S1 [V1 L1]]]].
+      destruct (eval fuel (g, hp) a) as [[g1 hp1] v]. simpl in *. destruct v as [v|].
+      * assert (L2 : length g1 <= L) by lia. destruct (IH G1 g1 hp1 S1 L2 F2) as [G2 [J1 J2]].
+        destruct (run_forms fuel (g1, hp1) r) as [[g2 hp2] vs]. simpl in *. exists G2. split; assumption.
+      * exists G1. simpl. split; [exact S1 | lia].
 Qed.
 
 
 (* ------------------------------------------------------------------ first pass: add *)
 
-Lemma owner_of_set : forall e idx b s sm' g' n',
-  owner_of (mkE sm' g' (set_nth_pad None idx (Some b) (owner e)) n') s =
+Lemma owner_of_set : forall e idx b s sm' g' n' hp',
+  owner_of (mkE sm' g' (set_nth_pad None idx (Some b) (owner e)) n' hp') s =
   if Nat.eqb s idx then Some b else owner_of e s.
 Proof. intros. unfold owner_of. simpl. apply nth_set_nth_pad. Qed.
 
 Lemma add_define_Bound : forall e x, Bound e ->
   Bound (fst (add_define e x)) /\
   owner_le e (fst (add_define e x)) /\
-  globals (fst (add_define e x)) = globals e /\
+  (globals (fst (add_define e x)) = globals e /\ heap (fst (add_define e x)) = heap e) /\
   snd (add_define e x) < length (values (sm (fst (add_define e x)))) /\
   length (values (sm e)) <= length (values (sm (fst (add_define e x)))) /\
   owner_of e (snd (add_define e x)) = None.
 Proof.
-  intros e x B. destruct B as [Bv Bmo Bmi Bns Bso Bfu Bfn Bfl Bfr Bgl].
+  intros e x B. destruct B as [Bv Bmo Bmi Bns Bso Bfu Bfn Bfl Bfr Bgl Bh].
   unfold add_define, sm_add.
   remember (free (fl (sm e))) as fr eqn:Efr.
   set (sh' := match lookup (smap (sm e)) x with
@@ -400,13 +568,13 @@ Proof.
     assert (UN : owner_of e idx = None) by (apply Bfr; unfold idx; lia).
     assert (OW : forall s, owner_of (mkE (mkSM (values (sm e) ++ [x]) ((x, idx) :: remove_name x (smap (sm e)))
                                    (mkFL sh' [] (threshold (fl (sm e))) (epoch (fl (sm e)))))
-                              (globals e) (set_nth_pad None idx (Some (nextb e)) (owner e)) (S (nextb e))) s
+                              (globals e) (set_nth_pad None idx (Some (nextb e)) (owner e)) (S (nextb e)) (heap e)) s
                        = if Nat.eqb s idx then Some (nextb e) else owner_of e s) by (intros; apply owner_of_set).
-    set (e' := mkE _ _ _ _) in *.
+    set (e' := mkE _ _ _ _ _) in *.
     assert (LE : owner_le e e').
     { intros s b H. rewrite OW. destruct (Nat.eqb s idx) eqn:E; [|exact H].
       apply Nat.eqb_eq in E. subst s. rewrite UN in H. discriminate. }
-    split; [|split; [exact LE|split; [reflexivity|split; [|split; [|exact UN]]]]].
+    split; [|split; [exact LE|split; [split; reflexivity|split; [|split; [|exact UN]]]]].
     + constructor; simpl.
       * intros s. eapply val_ok_le; [exact LE | apply Bv].
       * intros y s. rewrite lookup_remove_name. destruct (Nat.eqb y x) eqn:E.
@@ -430,6 +598,7 @@ Proof.
       * intros s. rewrite app_length. simpl. intros H. rewrite OW.
         destruct (Nat.eqb s idx) eqn:E; [apply Nat.eqb_eq in E; unfold idx in E; lia | apply Bfr; lia].
       * rewrite app_length. simpl. lia.
+      * destruct Bh as [G SK]. exists G. eapply sok_le; [exact LE | exact SK].
     + simpl. rewrite app_length. simpl. unfold idx. lia.
     + simpl. rewrite app_length. lia.
   - (* recycled slot *)
@@ -441,14 +610,14 @@ Proof.
     rewrite NE. simpl.
     assert (OW : forall s, owner_of (mkE (mkSM (set_nth s0 x (values (sm e))) ((x, s0) :: remove_name x (smap (sm e)))
                                    (mkFL sh' r0 (threshold (fl (sm e))) (epoch (fl (sm e)))))
-                              (globals e) (set_nth_pad None s0 (Some (nextb e)) (owner e)) (S (nextb e))) s
+                              (globals e) (set_nth_pad None s0 (Some (nextb e)) (owner e)) (S (nextb e)) (heap e)) s
                        = if Nat.eqb s s0 then Some (nextb e) else owner_of e s) by (intros; apply owner_of_set).
-    set (e' := mkE _ _ _ _) in *.
+    set (e' := mkE _ _ _ _ _) in *.
     assert (LE : owner_le e e').
     { intros s b H. rewrite OW. destruct (Nat.eqb s s0) eqn:E; [|exact H].
       apply Nat.eqb_eq in E. subst s. rewrite UN in H. discriminate. }
     assert (ND : NoDup (s0 :: r0)) by exact Bfn.
-    split; [|split; [exact LE|split; [reflexivity|split; [|split; [|exact UN]]]]].
+    split; [|split; [exact LE|split; [split; reflexivity|split; [|split; [|exact UN]]]]].
     + constructor; simpl.
       * intros s. eapply val_ok_le; [exact LE | apply Bv].
       * intros y s. rewrite lookup_remove_name. destruct (Nat.eqb y x) eqn:E.
@@ -474,6 +643,7 @@ Proof.
       * intros s. rewrite length_set_nth. intros H. rewrite OW.
         destruct (Nat.eqb s s0) eqn:E; [apply Nat.eqb_eq in E; lia | apply Bfr; exact H].
       * rewrite length_set_nth. exact Bgl.
+      * destruct Bh as [G SK]. exists G. eapply sok_le; [exact LE | exact SK].
     + simpl. rewrite length_set_nth. exact LT.
     + simpl. rewrite length_set_nth. lia.
 Qed.
@@ -483,18 +653,18 @@ Definition slot_lt (L : nat) (o : option slot) : Prop := match o with Some s => 
 
 Lemma first_pass_Bound : forall fs e, Bound e ->
   Bound (fst (first_pass e fs)) /\ owner_le e (fst (first_pass e fs)) /\
-  globals (fst (first_pass e fs)) = globals e /\
+  (globals (fst (first_pass e fs)) = globals e /\ heap (fst (first_pass e fs)) = heap e) /\
   Forall (slot_lt (length (values (sm (fst (first_pass e fs)))))) (snd (first_pass e fs)) /\
   length (values (sm e)) <= length (values (sm (fst (first_pass e fs)))).
 Proof.
   induction fs as [|f r IH]; intros e B; simpl.
-  - split; [exact B|]. split; [apply owner_le_refl|]. split; [reflexivity|]. split; [constructor | lia].
+  - split; [exact B|]. split; [apply owner_le_refl|]. split; [split; reflexivity|]. split; [constructor | lia].
   - destruct f as [x a|a].
-    + destruct (add_define_Bound e x B) as [B1 [L1 [G1 [S1 [V1 U1]]]]].
+    + destruct (add_define_Bound e x B) as [B1 [L1 [[G1 H1] [S1 [V1 U1]]]]].
       destruct (add_define e x) as [e1 idx]. simpl in *.
-      destruct (IH e1 B1) as [B2 [L2 [G2 [S2 V2]]]].
+      destruct (IH e1 B1) as [B2 [L2 [[G2 H2] [S2 V2]]]].
       destruct (first_pass e1 r) as [e2 l]. simpl in *.
-      split; [exact B2|]. split; [eapply owner_le_trans; eauto|]. split; [congruence|].
+      split; [exact B2|]. split; [eapply owner_le_trans; eauto|]. split; [split; congruence|].
       split; [constructor; [simpl; lia | exact S2] | lia].
     + destruct (IH e B) as [B2 [L2 [G2 [S2 V2]]]].
       destruct (first_pass e r) as [e2 l]. simpl in *.
@@ -538,6 +708,13 @@ Proof.
   - destruct (resolve_body e body) as [b|] eqn:E1; [|discriminate].
     destruct (resolve_expr e defs passed x) as [c|] eqn:E2; [|discriminate].
     inversion H; subst. simpl. split; [eapply resolve_body_ok; eauto | apply IHx; auto].
+  - destruct (resolve_expr e defs passed x) as [a'|] eqn:E1; [|discriminate].
+    inversion H; subst. simpl. apply IHx; auto.
+  - destruct (resolve_expr e defs passed x) as [a'|] eqn:E1; [|discriminate].
+    inversion H; subst. simpl. apply IHx; auto.
+  - destruct (resolve_expr e defs passed x1) as [a'|] eqn:E1; [|discriminate].
+    destruct (resolve_expr e defs passed x2) as [b'|] eqn:E2; [|discriminate].
+    inversion H; subst. simpl. split; [apply IHx1 | apply IHx2]; auto.
   - destruct (resolve_expr e defs passed x1) as [a'|] eqn:E1; [|discriminate].
     destruct (resolve_expr e defs passed x2) as [b'|] eqn:E2; [|discriminate].
     inversion H; subst. simpl. split; [apply IHx1 | apply IHx2]; auto.
@@ -577,7 +754,7 @@ Qed.
 
 Lemma build_Bound : forall c e fs, Bound e -> c_snapshot c = true ->
   Bound (fst (build c e fs)) /\ owner_le e (fst (build c e fs)) /\
-  globals (fst (build c e fs)) = globals e /\
+  (globals (fst (build c e fs)) = globals e /\ heap (fst (build c e fs)) = heap e) /\
   match snd (build c e fs) with
   | Some code => Forall (rform_okP (instr_code_ok (fst (build c e fs))) (length (values (sm (fst (build c e fs)))))) code
   | None => fst (build c e fs) = e
@@ -589,7 +766,7 @@ Proof.
   destruct (second_pass e1 (defined_names fs) [] fs slots) as [code|] eqn:E.
   - simpl. split; [exact B1|]. split; [exact L1|]. split; [exact G1|].
     eapply second_pass_ok; eauto.
-  - rewrite SN. simpl. split; [exact B|]. split; [apply owner_le_refl|]. split; reflexivity.
+  - rewrite SN. simpl. split; [exact B|]. split; [apply owner_le_refl|]. split; [split; reflexivity | reflexivity].
 Qed.
 
 
@@ -630,60 +807,6 @@ Proof.
 Qed.
 End Scan.
 
-(* ------------------------------------------------------------------ the rounds *)
-
-Lemma filter_length_split : forall {A} (p : A -> bool) l,
-  length (filter p l) + length (filter (fun x => negb (p x)) l) = length l.
-Proof. intros A p l. induction l as [|x r IH]; simpl; [reflexivity|]. destruct (p x); simpl; lia. Qed.
-
-Lemma rounds_spec : forall c g, c_follow c = true -> forall fuel work cands,
-  length cands < fuel ->
-  let left := rounds c g fuel work cands in
-  (forall s, In s left -> In s cands) /\
-  (forall v t, In v work -> In t (refs_of c v) -> ~ In t left) /\
-  (forall s t, In s cands -> ~ In s left -> In t (refs_of c (nth s g VVoid)) -> ~ In t left).
-Proof.
-  intros c g FOL. induction fuel as [|f IH]; intros work cands LT; [exfalso; inversion LT|].
-  simpl.
-  set (refs := flat_map (refs_of c) work).
-  set (rest := filter (fun s => negb (mem_slot s refs)) cands).
-  assert (INREFS : forall v t, In v work -> In t (refs_of c v) -> In t refs).
-  { intros v t Hv Ht. unfold refs. apply in_flat_map. exists v. split; assumption. }
-  remember (filter (fun s => mem_slot s refs) cands) as kept eqn:EK.
-  assert (KEPT : forall s, In s kept <-> In s cands /\ mem_slot s refs = true).
-  { intros s. rewrite EK. apply filter_In. }
-  destruct kept as [|k0 kr].
-  - split; [auto|]. split.
-    + intros v t Hv Ht HIn. assert (K : In t []).
-      { apply KEPT. split; [exact HIn | apply mem_slot_In; eapply INREFS; eauto]. }
-      exact K.
-    + intros s t Hs Hn. contradiction.
-  - rewrite FOL.
-    assert (LR : length rest < f).
-    { pose proof (filter_length_split (fun s => mem_slot s refs) cands) as P.
-      rewrite <- EK in P. fold rest in P. simpl in P. lia. }
-    destruct (IH (map (fun s => nth s g VVoid) (k0 :: kr)) rest LR) as [R1 [R2 R3]].
-    split; [|split].
-    + intros s Hs. apply R1 in Hs. unfold rest in Hs. apply filter_In in Hs. tauto.
-    + intros v t Hv Ht HIn. apply R1 in HIn. unfold rest in HIn. apply filter_In in HIn.
-      destruct HIn as [_ HN]. apply negb_true_iff in HN. apply mem_slot_false in HN.
-      apply HN. eapply INREFS; eauto.
-    + intros s t Hs Hn Ht.
-      destruct (mem_slot s refs) eqn:M.
-      * (* s was kept in this round: its value is in the next work list *)
-        eapply R2; [|exact Ht]. apply in_map_iff. exists s. split; [reflexivity|].
-        apply KEPT. split; assumption.
-      * eapply R3; [|exact Hn|exact Ht]. unfold rest. apply filter_In. split; [exact Hs|].
-        rewrite M. reflexivity.
-Qed.
-
-Lemma rounds_NoDup : forall c g fuel work cands, NoDup cands -> NoDup (rounds c g fuel work cands).
-Proof.
-  intros c g. induction fuel as [|f IH]; intros work cands ND; simpl; [exact ND|].
-  destruct (filter (fun s => mem_slot s (flat_map (refs_of c) work)) cands) eqn:EK; [exact ND|].
-  destruct (c_follow c); [apply IH|]; apply NoDup_filter; exact ND.
-Qed.
-
 Lemma NoDup_app_intro : forall {A} (l1 l2 : list A),
   NoDup l1 -> NoDup l2 -> (forall x, In x l1 -> In x l2 -> False) -> NoDup (l1 ++ l2).
 Proof.
@@ -691,6 +814,158 @@ Proof.
   constructor.
   - rewrite in_app_iff. intros [K|K]; [contradiction | apply (D x); [left; reflexivity | exact K]].
   - apply IH. intros y Hy. apply D. right. exact Hy.
+Qed.
+
+(* ------------------------------------------------------------------ the walk through the heap *)
+
+Lemma filter_length_split : forall {A} (p : A -> bool) l,
+  length (filter p l) + length (filter (fun x => negb (p x)) l) = length l.
+Proof. intros A p l. induction l as [|x r IH]; simpl; [reflexivity|]. destruct (p x); simpl; lia. Qed.
+
+Lemma NoDup_bounded_length : forall (l : list nat) n, NoDup l -> (forall x, In x l -> x < n) -> length l <= n.
+Proof.
+  intros l n ND B. rewrite <- (seq_length n 0). apply NoDup_incl_length; [exact ND|].
+  intros x Hx. apply in_seq. split; [lia | simpl; apply B; exact Hx].
+Qed.
+
+Definition covered (c : config) (hp : list val) (R : list slot) (V : list nat) (v : val) : Prop :=
+  (forall t, In t (refs_of c v) -> In t R) /\ (forall a, In a (cells_in v) -> a < length hp -> In a V).
+
+Lemma heap_walk_spec : forall c hp fuel visited work,
+  NoDup visited -> (forall a, In a visited -> a < length hp) -> length hp < fuel + length visited ->
+  let R := fst (heap_walk c hp fuel visited work) in
+  let V := snd (heap_walk c hp fuel visited work) in
+  incl visited V /\ NoDup V /\ (forall a, In a V -> a < length hp) /\
+  (forall v, In v work -> covered c hp R V v) /\
+  (forall a, In a V -> ~ In a visited -> covered c hp R V (nth a hp VVoid)).
+Proof.
+  intros c hp. induction fuel as [|f IH]; intros visited work ND BD FU.
+  - exfalso. pose proof (NoDup_bounded_length visited (length hp) ND BD). lia.
+  - cbn [heap_walk].
+    remember (nodup Nat.eq_dec (filter (fun a => Nat.ltb a (length hp) && negb (mem_slot a visited)) (flat_map cells_in work))) as fresh eqn:EF.
+    assert (FR : forall a, In a fresh <-> (In a (flat_map cells_in work) /\ a < length hp /\ ~ In a visited)).
+    { intros a. rewrite EF, nodup_In, filter_In, andb_true_iff, Nat.ltb_lt, negb_true_iff, mem_slot_false. tauto. }
+    assert (NDF : NoDup fresh) by (rewrite EF; apply NoDup_nodup).
+    destruct fresh as [|a0 fr].
+    + simpl. split; [apply incl_refl|]. split; [exact ND|]. split; [exact BD|]. split.
+      * intros v Hv. split.
+        -- intros t Ht. apply in_flat_map. exists v. split; assumption.
+        -- intros a Ha Hl. destruct (in_dec Nat.eq_dec a visited) as [K|K]; [exact K|].
+           exfalso. apply (proj2 (FR a)). split; [apply in_flat_map; exists v; split; assumption | split; assumption].
+      * intros a Ha Hn. contradiction.
+    + set (fresh := a0 :: fr) in *.
+      assert (ND2 : NoDup (fresh ++ visited)).
+      { apply NoDup_app_intro; [exact NDF | exact ND|]. intros x H1 H2. apply (proj1 (FR x)) in H1. tauto. }
+      assert (BD2 : forall a, In a (fresh ++ visited) -> a < length hp).
+      { intros a Ha. apply in_app_or in Ha. destruct Ha as [Ha|Ha]; [apply (proj1 (FR a)) in Ha; tauto | apply BD; exact Ha]. }
+      assert (FU2 : length hp < f + length (fresh ++ visited)) by (rewrite app_length; unfold fresh; simpl; lia).
+      destruct (IH (fresh ++ visited) (map (fun a => nth a hp VVoid) fresh) ND2 BD2 FU2) as [I1 [I2 [I3 [I4 I5]]]].
+      destruct (heap_walk c hp f (fresh ++ visited) (map (fun a => nth a hp VVoid) fresh)) as [r vis]. cbv beta iota zeta delta [fst snd] in *.
+      split; [intros x Hx; apply I1; apply in_or_app; right; exact Hx|]. split; [exact I2|]. split; [exact I3|]. split.
+      * intros v Hv. split.
+        -- intros t Ht. apply in_or_app. left. apply in_flat_map. exists v. split; assumption.
+        -- intros a Ha Hl. apply I1. destruct (in_dec Nat.eq_dec a visited) as [K|K]; [apply in_or_app; right; exact K|].
+           apply in_or_app. left. apply (proj2 (FR a)). split; [apply in_flat_map; exists v; split; assumption | split; assumption].
+      * intros a Ha Hn. destruct (in_dec Nat.eq_dec a fresh) as [K|K].
+        -- assert (W : In (nth a hp VVoid) (map (fun a => nth a hp VVoid) fresh)) by (apply in_map_iff; exists a; split; [reflexivity | exact K]).
+           destruct (I4 _ W) as [C1 C2]. split; [intros t Ht; apply in_or_app; right; apply C1; exact Ht | exact C2].
+        -- assert (N2 : ~ In a (fresh ++ visited)) by (intros Q; apply in_app_or in Q; tauto).
+           destruct (I5 a Ha N2) as [C1 C2]. split; [intros t Ht; apply in_or_app; right; apply C1; exact Ht | exact C2].
+Qed.
+
+(* every newly visited cell is reachable from the work list: it belongs to any set closed under the heap that
+   contains the cells of the work list *)
+Lemma heap_walk_reach : forall c hp (G : list nat),
+  (forall a, In a G -> a < length hp -> forall b, In b (cells_in (nth a hp VVoid)) -> b < length hp -> In b G) ->
+  forall fuel visited work,
+  (forall v, In v work -> forall a, In a (cells_in v) -> a < length hp -> In a G) ->
+  forall a, In a (snd (heap_walk c hp fuel visited work)) -> ~ In a visited -> In a G.
+Proof.
+  intros c hp G CL. induction fuel as [|f IH]; intros visited work HW a Ha Hn; cbn [heap_walk] in Ha.
+  - simpl in Ha. contradiction.
+  - remember (nodup Nat.eq_dec (filter (fun a => Nat.ltb a (length hp) && negb (mem_slot a visited)) (flat_map cells_in work))) as fresh eqn:EF.
+    assert (FR : forall a, In a fresh -> In a G /\ a < length hp).
+    { intros x Hx. rewrite EF, nodup_In, filter_In, andb_true_iff, Nat.ltb_lt in Hx. destruct Hx as [H1 [H2 _]].
+      apply in_flat_map in H1. destruct H1 as [v [Hv Hc]]. split; [eapply HW; eauto | exact H2]. }
+    destruct fresh as [|a0 fr]; [simpl in Ha; contradiction|].
+    set (fresh := a0 :: fr) in *.
+    destruct (heap_walk c hp f (fresh ++ visited) (map (fun a => nth a hp VVoid) fresh)) as [r vis] eqn:EW. simpl in Ha.
+    destruct (in_dec Nat.eq_dec a fresh) as [K|K]; [apply FR; exact K|].
+    apply (IH (fresh ++ visited) (map (fun a => nth a hp VVoid) fresh)).
+    + intros v Hv b Hb Hl. apply in_map_iff in Hv. destruct Hv as [x [Hx1 Hx2]]. subst v.
+      destruct (FR x Hx2) as [F1 F2]. eapply CL; eauto.
+    + rewrite EW. exact Ha.
+    + intros Q. apply in_app_or in Q. tauto.
+Qed.
+
+(* ------------------------------------------------------------------ the rounds *)
+
+Definition disjoint_refs (c : config) (hp : list val) (left : list slot) (V : list nat) (v : val) : Prop :=
+  (forall t, In t (refs_of c v) -> ~ In t left) /\ (forall a, In a (cells_in v) -> a < length hp -> In a V).
+
+Lemma rounds_spec : forall c g hp (G : list nat), c_follow c = true ->
+  (forall a, In a G -> a < length hp -> forall b, In b (cells_in (nth a hp VVoid)) -> b < length hp -> In b G) ->
+  (forall s a, In a (cells_in (nth s g VVoid)) -> a < length hp -> In a G) ->
+  forall fuel visited work cands,
+  length cands < fuel -> NoDup visited -> (forall a, In a visited -> a < length hp) ->
+  (forall v, In v work -> forall a, In a (cells_in v) -> a < length hp -> In a G) ->
+  let left := rounds c g hp fuel visited work cands in
+  exists V, incl visited V /\
+    (forall s, In s left -> In s cands) /\
+    (forall v, In v work -> disjoint_refs c hp left V v) /\
+    (forall s, In s cands -> ~ In s left -> disjoint_refs c hp left V (nth s g VVoid)) /\
+    (forall a, In a V -> ~ In a visited -> disjoint_refs c hp left V (nth a hp VVoid) /\ In a G).
+Proof.
+  intros c g hp G FOL CL GG. induction fuel as [|f IH]; intros visited work cands LT ND BD HW; [exfalso; inversion LT|].
+  cbn [rounds].
+  assert (FU : length hp < S (length hp) + length visited) by lia.
+  destruct (heap_walk_spec c hp (S (length hp)) visited work ND BD FU) as [W1 [W2 [W3 [W4 W5]]]].
+  pose proof (heap_walk_reach c hp G CL (S (length hp)) visited work HW) as W6.
+  destruct (heap_walk c hp (S (length hp)) visited work) as [refs vis]. simpl in W1, W2, W3, W4, W5, W6.
+  set (rest := filter (fun s => negb (mem_slot s refs)) cands).
+  remember (filter (fun s => mem_slot s refs) cands) as kept eqn:EK.
+  assert (KEPT : forall s, In s kept <-> In s cands /\ mem_slot s refs = true).
+  { intros s. rewrite EK. apply filter_In. }
+  assert (REST : forall s, In s rest <-> In s cands /\ ~ In s refs).
+  { intros s. unfold rest. rewrite filter_In, negb_true_iff, mem_slot_false. tauto. }
+  destruct kept as [|k0 kr].
+  - exists vis. split; [exact W1|]. split; [auto|]. split; [|split].
+    + intros v Hv. destruct (W4 v Hv) as [C1 C2]. split; [|exact C2].
+      intros t Ht HIn. assert (K : In t []) by (apply KEPT; split; [exact HIn | apply mem_slot_In; apply C1; exact Ht]). exact K.
+    + intros s Hs Hn. contradiction.
+    + intros a Ha Hn. destruct (W5 a Ha Hn) as [C1 C2]. split; [|apply W6; assumption]. split; [|exact C2].
+      intros t Ht HIn. assert (K : In t []) by (apply KEPT; split; [exact HIn | apply mem_slot_In; apply C1; exact Ht]). exact K.
+  - rewrite FOL.
+    assert (LR : length rest < f).
+    { pose proof (filter_length_split (fun s => mem_slot s refs) cands) as P.
+      rewrite <- EK in P. fold rest in P. simpl in P. lia. }
+    assert (HW2 : forall v, In v (map (fun s => nth s g VVoid) (k0 :: kr)) -> forall a, In a (cells_in v) -> a < length hp -> In a G).
+    { intros v Hv a Ha Hl. apply in_map_iff in Hv. destruct Hv as [s [Hs _]]. subst v. eapply GG; eauto. }
+    destruct (IH vis (map (fun s => nth s g VVoid) (k0 :: kr)) rest LR W2 W3 HW2) as [V [R0 [R1 [R2 [R3 R4]]]]].
+    set (left := rounds c g hp f vis (map (fun s => nth s g VVoid) (k0 :: kr)) rest) in *.
+    assert (LEFT_REFS : forall t, In t refs -> ~ In t left).
+    { intros t Ht HL. apply R1 in HL. apply REST in HL. tauto. }
+    exists V. split; [eapply incl_tran; eauto|]. split; [|split; [|split]].
+    + intros s Hs. apply R1 in Hs. apply REST in Hs. tauto.
+    + intros v Hv. destruct (W4 v Hv) as [C1 C2]. split.
+      * intros t Ht. apply LEFT_REFS, C1, Ht.
+      * intros a Ha Hl. apply R0, C2; assumption.
+    + intros s Hs Hn. destruct (mem_slot s refs) eqn:M.
+      * apply R2. apply in_map_iff. exists s. split; [reflexivity | apply KEPT; split; assumption].
+      * apply R3; [|exact Hn]. apply REST. split; [exact Hs | apply mem_slot_false; exact M].
+    + intros a Ha Hn. destruct (in_dec Nat.eq_dec a vis) as [K|K].
+      * destruct (W5 a K Hn) as [C1 C2]. split; [|apply W6; assumption]. split.
+        -- intros t Ht. apply LEFT_REFS, C1, Ht.
+        -- intros b Hb Hl. apply R0, C2; assumption.
+      * apply R4; assumption.
+Qed.
+
+Lemma rounds_NoDup : forall c g hp fuel visited work cands, NoDup cands -> NoDup (rounds c g hp fuel visited work cands).
+Proof.
+  intros c g hp. induction fuel as [|f IH]; intros visited work cands ND; cbn [rounds]; [exact ND|].
+  destruct (heap_walk c hp (S (length hp)) visited work) as [refs vis].
+  destruct (filter (fun s => mem_slot s refs) cands) eqn:EK; [exact ND|].
+  destruct (c_follow c); [apply IH|]; apply NoDup_filter; exact ND.
 Qed.
 
 (* ------------------------------------------------------------------ helpers on the indexed maps *)
@@ -741,16 +1016,27 @@ Lemma recycle_Bound : forall c e, config_sound c -> Bound e ->
   values (sm (recycle c e)) = values (sm e) /\ smap (sm (recycle c e)) = smap (sm e) /\
   shadowed (fl (sm (recycle c e))) = [].
 Proof.
-  intros c e [COVER [HDR [FOL SNAP]]] B.
-  destruct B as [Bv Bmo Bmi Bns Bso Bfu Bfn Bfl Bfr Bgl].
-  unfold recycle.
+  intros c e [COVER [HDR [FOL [SNAP CLR]]]] B.
+  destruct B as [Bv Bmo Bmi Bns Bso Bfu Bfn Bfl Bfr Bgl [G [SK1 SK2]]].
+  unfold recycle. rewrite CLR.
   set (f := fl (sm e)).
   set (cands := nodup Nat.eq_dec (shadowed f)).
   set (roots := index_filter (fun i => negb (mem_slot i cands)) 0 (globals e)).
-  set (left := rounds c (globals e) (S (length cands)) roots cands).
+  set (left := rounds c (globals e) (heap e) (S (length cands)) [] roots cands).
   set (dead := filter (fun s => Nat.ltb s (length (globals e))) left).
-  destruct (rounds_spec c (globals e) FOL (S (length cands)) roots cands (Nat.lt_succ_diag_r _)) as [R1 [R2 R3]].
-  fold left in R1, R2, R3.
+  assert (CL : forall a, In a G -> a < length (heap e) -> forall b, In b (cells_in (nth a (heap e) VVoid)) -> b < length (heap e) -> In b G).
+  { intros a Ha Hl b Hb Hbl. destruct (SK2 a Ha) as [_ C]. apply C; assumption. }
+  assert (GG : forall s a, In a (cells_in (nth s (globals e) VVoid)) -> a < length (heap e) -> In a G).
+  { intros s a Ha Hl. destruct (SK1 s) as [_ C]. apply C; assumption. }
+  assert (HW : forall v, In v roots -> forall a, In a (cells_in v) -> a < length (heap e) -> In a G).
+  { intros v Hv a Ha Hl. unfold roots in Hv.
+    assert (K : forall p i gl, In v (index_filter p i gl) -> In v gl).
+    { intros p i gl. revert i. induction gl as [|x r IHg]; intros i Hi; simpl in *; [contradiction|].
+      apply in_app_or in Hi. destruct Hi as [Hi|Hi]; [destruct (p i); [destruct Hi as [Hi|[]]; left; exact Hi | contradiction] | right; eapply IHg; eauto]. }
+    apply K in Hv. apply In_nth with (d := VVoid) in Hv. destruct Hv as [n [_ Hn]]. subst v. eapply GG; eauto. }
+  destruct (rounds_spec c (globals e) (heap e) G FOL CL GG (S (length cands)) [] roots cands
+              (Nat.lt_succ_diag_r _) (NoDup_nil _) (fun a (H : In a []) => match H with end) HW) as [V [R0 [R1 [R2 [R3 R4]]]]].
+  fold left in R1, R2, R3, R4.
   assert (CANDS : forall s, In s cands <-> In s (shadowed f)) by (intros s; unfold cands; apply nodup_In).
   assert (DEAD_LEFT : forall s, In s dead -> In s left /\ s < length (globals e)).
   { intros s H. unfold dead in H. apply filter_In in H. destruct H as [H1 H2]. apply Nat.ltb_lt in H2. tauto. }
@@ -758,29 +1044,29 @@ Proof.
   { intros s H. apply CANDS. apply R1. apply DEAD_LEFT. exact H. }
   assert (ND_DEAD : NoDup dead).
   { unfold dead. apply NoDup_filter. unfold left. apply rounds_NoDup. unfold cands. apply NoDup_nodup. }
-  set (e' := mkE _ _ _ _).
+  set (e' := mkE _ _ _ _ _).
   assert (OW : forall s, owner_of e' s = if mem_slot s dead then None else owner_of e s).
   { intros s. unfold owner_of, e'. simpl. rewrite clear_owner_nth. reflexivity. }
   assert (OWK : forall s, ~ In s dead -> owner_of e' s = owner_of e s).
   { intros s H. rewrite OW. apply mem_slot_false in H. rewrite H. reflexivity. }
   assert (GL : forall s, nth s (globals e') VVoid = if mem_slot s dead then VVoid else nth s (globals e) VVoid).
   { intros s. unfold e'. simpl. rewrite void_slots_nth. reflexivity. }
+  (* every value that stays is disjoint from the freed slots and mentions visited cells only *)
+  assert (STAY : forall s, ~ In s dead -> s < length (globals e) -> disjoint_refs c (heap e) left V (nth s (globals e) VVoid)).
+  { intros s MD LT. destruct (mem_slot s cands) eqn:MC.
+    - apply mem_slot_In in MC. apply R3; [exact MC|].
+      intros HL2. apply MD. unfold dead. apply filter_In. split; [exact HL2 | apply Nat.ltb_lt; exact LT].
+    - apply R2. unfold roots. apply (index_filter_In _ (globals e) 0 s LT). simpl. rewrite MC. reflexivity. }
+  assert (DEAD_OK : forall v, val_ok e v -> (forall t, In t (refs_of c v) -> ~ In t left) -> val_ok e' v).
+  { intros v V1 V2. eapply (val_ok_dead c COVER HDR e e' dead); [exact OWK | exact V1|].
+    intros t Ht HD. apply (V2 t Ht). apply DEAD_LEFT. exact HD. }
   split; [|split; [|split; [reflexivity|split; [reflexivity|]]]].
   - constructor.
     + (* values *)
       intros s. rewrite GL. destruct (mem_slot s dead) eqn:MD; [exact I|].
       apply mem_slot_false in MD.
       destruct (Nat.ltb s (length (globals e))) eqn:LT.
-      * apply Nat.ltb_lt in LT.
-        eapply (val_ok_dead c COVER HDR e e' dead); [exact OWK | apply Bv|].
-        intros t Ht HD. destruct (DEAD_LEFT _ HD) as [HL _].
-        destruct (mem_slot s cands) eqn:MC.
-        -- apply mem_slot_In in MC.
-           assert (NL : ~ In s left).
-           { intros HL2. apply MD. unfold dead. apply filter_In. split; [exact HL2 | apply Nat.ltb_lt; exact LT]. }
-           exact (R3 s t MC NL Ht HL).
-        -- refine (R2 (nth s (globals e) VVoid) t _ Ht HL).
-           unfold roots. apply (index_filter_In _ (globals e) 0 s LT). simpl. rewrite MC. reflexivity.
+      * apply Nat.ltb_lt in LT. destruct (STAY s MD LT) as [D1 D2]. apply DEAD_OK; [apply Bv | exact D1].
       * apply Nat.ltb_ge in LT. rewrite nth_overflow; [exact I | exact LT].
     + intros x s H. simpl in H. rewrite OWK; [eapply Bmo; eauto|].
       intros HD. eapply Bns; [exact H | apply DEAD_SH; exact HD].
@@ -799,6 +1085,16 @@ Proof.
       * apply Bfl. exact H.
     + intros s H. simpl in H. rewrite OW. destruct (mem_slot s dead); [reflexivity | apply Bfr; exact H].
     + simpl. rewrite void_slots_length. exact Bgl.
+    + (* heap: the visited cells are the new good set *)
+      exists V. split.
+      * intros s. change (heap e') with (heap e). rewrite GL. destruct (mem_slot s dead) eqn:MD; [apply vgood_void|].
+        apply mem_slot_false in MD.
+        destruct (Nat.ltb s (length (globals e))) eqn:LT.
+        -- apply Nat.ltb_lt in LT. destruct (STAY s MD LT) as [D1 D2]. split; [apply DEAD_OK; [apply Bv | exact D1] | exact D2].
+        -- apply Nat.ltb_ge in LT. rewrite nth_overflow; [apply vgood_void | exact LT].
+      * intros a Ha. change (heap e') with (heap e).
+        destruct (R4 a Ha (fun H : In a [] => match H with end)) as [[D1 D2] HG].
+        split; [apply DEAD_OK; [apply (proj1 (SK2 a HG)) | exact D1] | exact D2].
   - intros s H. apply OWK. intros HD. apply H. apply DEAD_SH. exact HD.
   - simpl. rewrite incr_gen_shadowed. reflexivity.
 Qed.
@@ -817,6 +1113,7 @@ Proof.
   - intros s [].
   - intros s _. unfold owner_of. simpl. destruct s; reflexivity.
   - lia.
+  - exists []. split; [intros s; destruct s; apply vgood_void | intros a []].
 Qed.
 
 Lemma maybe_recycle_Bound : forall c e L code, config_sound c -> Bound e ->
@@ -837,28 +1134,31 @@ Proof.
     intros i Hi R. destruct (Hi R) as [HH _]. exact HH.
 Qed.
 
-Lemma Bound_set_globals : forall e g, Bound e -> gok e g -> length g <= length (values (sm e)) ->
-  Bound (mkE (sm e) g (owner e) (nextb e)).
+Lemma Bound_set_state : forall e G g hp, Bound e -> sok e G g hp -> length g <= length (values (sm e)) ->
+  Bound (mkE (sm e) g (owner e) (nextb e) hp).
 Proof.
-  intros e g B G L. destruct B as [Bv Bmo Bmi Bns Bso Bfu Bfn Bfl Bfr Bgl].
+  intros e G g hp B SK L. destruct B as [Bv Bmo Bmi Bns Bso Bfu Bfn Bfl Bfr Bgl Bh].
+  assert (LE : owner_le e (mkE (sm e) g (owner e) (nextb e) hp)) by (intros t b H; exact H).
   constructor; simpl; auto.
-  intros s. eapply val_ok_le; [|apply G]. intros t b H. exact H.
+  - intros s. eapply val_ok_le; [exact LE | apply (proj1 (proj1 SK s))].
+  - exists G. eapply sok_le; [exact LE | exact SK].
 Qed.
 
 Theorem Bound_run_unit : forall c fuel e u, config_sound c -> Bound e -> Bound (fst (run_unit c fuel e u)).
 Proof.
   intros c fuel e u CS B. unfold run_unit.
   destruct (u_expand_fails u); [exact B|].
-  destruct CS as [COVER [HDR [FOL SNAP]]].
+  pose proof CS as [COVER [HDR [FOL [SNAP CLR]]]].
   destruct (build_Bound c e (u_forms u) B SNAP) as [B1 [L1 [G1 CODE]]].
   destruct (build c e (u_forms u)) as [e1 [code|]]; simpl in *; [|exact B1].
-  destruct (maybe_recycle_Bound c e1 _ code (conj COVER (conj HDR (conj FOL SNAP))) B1 CODE) as [B2 [C2 V2]].
+  destruct (maybe_recycle_Bound c e1 _ code CS B1 CODE) as [B2 [C2 V2]].
   set (e2 := maybe_recycle c e1) in *.
-  destruct (run_forms_ok e2 fuel (length (values (sm e1))) code (globals e2) (b_vals e2 B2)) as [G3 L3].
+  destruct (b_heap e2 B2) as [G SK].
+  destruct (run_forms_ok e2 fuel (length (values (sm e1))) code G (globals e2) (heap e2) SK) as [G3 [S3 L3]].
   - rewrite <- V2. apply (b_glob_len e2 B2).
   - exact C2.
-  - destruct (run_forms fuel (globals e2) code) as [g r]. simpl in *.
-    apply Bound_set_globals; [exact B2 | exact G3 | rewrite V2; exact L3].
+  - destruct (run_forms fuel (globals e2, heap e2) code) as [[g hp] r]. simpl in *.
+    eapply Bound_set_state; [exact B2 | exact S3 | rewrite V2; exact L3].
 Qed.
 
 Theorem Bound_history : forall c fuel h e, config_sound c -> Bound e -> Bound (fst (run_history c fuel e h)).
@@ -900,22 +1200,22 @@ Proof.
 Qed.
 
 Lemma redefine_local_l : forall c e fs, Bound e -> c_snapshot c = true ->
-  globals (fst (build c e fs)) = globals e /\
+  globals (fst (build c e fs)) = globals e /\ heap (fst (build c e fs)) = heap e /\
   (forall s b, owner_of e s = Some b -> owner_of (fst (build c e fs)) s = Some b) /\
   Forall (slot_unowned e) (snd (first_pass e fs)).
 Proof.
-  intros c e fs B SN. destruct (build_Bound c e fs B SN) as [B1 [L1 [G1 _]]].
-  split; [exact G1|]. split; [exact L1 | apply first_pass_targets_fresh; exact B].
+  intros c e fs B SN. destruct (build_Bound c e fs B SN) as [B1 [L1 [[G1 H1] _]]].
+  split; [exact G1|]. split; [exact H1|]. split; [exact L1 | apply first_pass_targets_fresh; exact B].
 Qed.
 
 (* ------------------------------------------------------------------ set_visible *)
 
-Lemma set_visible_l : forall fuel g s b n, s < length g ->
-  eval fuel g (RSet s b (RConst n)) = (set_nth s (VInt n) g, Some (nth s g VVoid)) /\
+Lemma set_visible_l : forall fuel g hp s b n, s < length g ->
+  eval fuel (g, hp) (RSet s b (RConst n)) = ((set_nth s (VInt n) g, hp), Some (nth s g VVoid)) /\
   nth s (set_nth s (VInt n) g) VVoid = VInt n /\
   (forall t, t <> s -> nth t (set_nth s (VInt n) g) VVoid = nth t g VVoid).
 Proof.
-  intros fuel g s b n L. simpl. assert (LT : Nat.ltb s (length g) = true) by (apply Nat.ltb_lt; exact L).
+  intros fuel g hp s b n L. simpl. assert (LT : Nat.ltb s (length g) = true) by (apply Nat.ltb_lt; exact L).
   rewrite LT. split; [reflexivity|]. split.
   - rewrite nth_set_nth, Nat.eqb_refl, LT. reflexivity.
   - intros t NE. rewrite nth_set_nth. apply Nat.eqb_neq in NE. rewrite NE. reflexivity.
@@ -935,7 +1235,7 @@ Proof.
   rewrite SN. reflexivity.
 Qed.
 
-Definition cfg_truncate : config := mkCfg scanned_ops true true false.
+Definition cfg_truncate : config := mkCfg scanned_ops true true false true.
 
 Definition st_x5 : eng := fst (run_history cfg_truncate 10 eng_new [mkU false [FDefine 0 (EConst 5)]]).
 
@@ -970,6 +1270,14 @@ Fixpoint val_okb (e : eng) (v : val) : bool :=
   | _ => true
   end.
 
+(* a cell mentioned by a stored value holds a well bound value as well *)
+Lemma Bound_cell : forall e s a, Bound e -> In a (cells_in (nth s (globals e) VVoid)) -> a < length (heap e) ->
+  val_ok e (nth a (heap e) VVoid).
+Proof.
+  intros e s a B Ha Hl. destruct (b_heap e B) as [G [S1 S2]].
+  destruct (S1 s) as [_ C]. apply (proj1 (S2 a (C a Ha Hl))).
+Qed.
+
 Lemma instr_okb_sound : forall e h idx i, instr_ok e h idx i -> instr_okb e h idx i = true.
 Proof.
   intros e h idx i H. unfold instr_okb. destruct (refs_global (true_op h idx i)) eqn:R; [|reflexivity].
@@ -989,6 +1297,12 @@ Proof.
   - destruct H as [H1 H2]. rewrite (IHv1 H1), (IHv2 H2). reflexivity.
 Qed.
 
+Lemma not_Bound_by_cell : forall e s a, In a (cells_in (nth s (globals e) VVoid)) -> a < length (heap e) ->
+  val_okb e (nth a (heap e) VVoid) = false -> ~ Bound e.
+Proof.
+  intros e s a Ha Hl H B. pose proof (val_okb_sound e _ (Bound_cell e s a B Ha Hl)) as K. congruence.
+Qed.
+
 Lemma not_Bound_by_slot : forall e s, val_okb e (nth s (globals e) VVoid) = false -> ~ Bound e.
 Proof.
   intros e s H B. pose proof (val_okb_sound e _ (b_vals e B s)) as K. congruence.
@@ -1001,24 +1315,24 @@ Definition many (f : nat -> form) (n : nat) : list unit_ := map (fun i => U1 [f 
 
 (* scan without OpCode::SET (DESIGN F2): x=0, setter=1, junk=2 *)
 Definition cfg_no_set : config :=
-  mkCfg (filter (fun o => negb (op_eqb o Op_SET)) scanned_ops) true true true.
+  mkCfg (filter (fun o => negb (op_eqb o Op_SET)) scanned_ops) true true true true.
 Definition h_no_set : list unit_ :=
-  [U1 [FDefine 0 (EConst 1); FDefine 1 (ELam false [SL Op_READLOCAL 0 None; SG Op_SET 0 None] (EConst 0))];
+  [U1 [FDefine 0 (EConst 1); FDefine 1 (ELam false false [SL Op_READLOCAL 0 None; SG Op_SET 0 None] (EConst 0))];
    U1 [FDefine 0 (EConst 2)]] ++ many (fun i => FDefine 2 (EConst i)) 120.
 
 (* scan that ignores the JIT header (DESIGN F3): f=0, g=1, junk=2 *)
-Definition cfg_no_header : config := mkCfg scanned_ops false true true.
+Definition cfg_no_header : config := mkCfg scanned_ops false true true true.
 Definition h_no_header : list unit_ :=
-  [U1 [FDefine 0 (ELam true [] (EConst 0))];
-   U1 [FDefine 1 (ELam true [SG Op_CALLGLOBALTAIL 0 None] (EConst 0))];
-   U1 [FDefine 0 (ELam true [] (EConst 0))]] ++ many (fun i => FDefine 2 (EConst i)) 120.
+  [U1 [FDefine 0 (ELam true false [] (EConst 0))];
+   U1 [FDefine 1 (ELam true false [SG Op_CALLGLOBALTAIL 0 None] (EConst 0))];
+   U1 [FDefine 0 (ELam true false [] (EConst 0))]] ++ many (fun i => FDefine 2 (EConst i)) 120.
 
 (* scan that does not visit the value of a shadowed slot it found referenced: h=0, f=1, g=2, junk=3 *)
-Definition cfg_no_follow : config := mkCfg scanned_ops true false true.
+Definition cfg_no_follow : config := mkCfg scanned_ops true false true true.
 Definition h_no_follow : list unit_ :=
-  [U1 [FDefine 0 (ELam false [SL Op_PUSHCONST 1 None] (EConst 0))];
-   U1 [FDefine 1 (ELam false [SL Op_PUSHCONST 1 None; SG Op_CALLGLOBAL 0 None] (EConst 0))];
-   U1 [FDefine 2 (ELam false [SL Op_PUSHCONST 1 None; SG Op_CALLGLOBAL 1 None] (EConst 0))];
+  [U1 [FDefine 0 (ELam false false [SL Op_PUSHCONST 1 None] (EConst 0))];
+   U1 [FDefine 1 (ELam false false [SL Op_PUSHCONST 1 None; SG Op_CALLGLOBAL 0 None] (EConst 0))];
+   U1 [FDefine 2 (ELam false false [SL Op_PUSHCONST 1 None; SG Op_CALLGLOBAL 1 None] (EConst 0))];
    U1 [FDefine 0 (EConst 2)]; U1 [FDefine 1 (EConst 3)]] ++ many (fun i => FDefine 3 (EConst i)) 120.
 
 Lemma scan_without_SET_refuted_l : exists h, ~ Bound (fst (run_history cfg_no_set 10 eng_new h)).
@@ -1029,6 +1343,31 @@ Proof. exists h_no_header. apply (not_Bound_by_slot _ 1). vm_compute. reflexivit
 
 Lemma scan_without_follow_refuted_l : exists h, ~ Bound (fst (run_history cfg_no_follow 10 eng_new h)).
 Proof. exists h_no_follow. apply (not_Bound_by_slot _ 1). vm_compute. reflexivity. Qed.
+
+(* a walk that starts from stale mark bits: h=0, g=1 (calls h), holder=2 (a box holding g), junk=3.
+   g and h are redefined, so the old g lives only in the box and the old h is referenced only by the old g. *)
+Definition cfg_stale_marks : config := mkCfg scanned_ops true true true false.
+Definition h_stale_marks : list unit_ :=
+  [U1 [FDefine 0 (ELam false false [SL Op_PUSHCONST 1 None] (EConst 0))];
+   U1 [FDefine 1 (ELam false false [SL Op_PUSHCONST 1 None; SG Op_CALLGLOBAL 0 None] (EConst 0))];
+   U1 [FDefine 2 (EBox false (EGlobal 1))];
+   U1 [FDefine 1 (EConst 2)]; U1 [FDefine 0 (EConst 3)]] ++ many (fun i => FDefine 3 (EConst i)) 120.
+
+Lemma scan_with_stale_marks_refuted_l : exists h, ~ Bound (fst (run_history cfg_stale_marks 10 eng_new h)).
+Proof.
+  exists h_stale_marks. apply (not_Bound_by_cell _ 2 0); [vm_compute; left; reflexivity | vm_compute; lia | vm_compute; reflexivity].
+Qed.
+
+(* the same history on the code as it is now: the closure in the box is still well bound after the recycling round *)
+Lemma heap_nonvacuous_l :
+  let e := fst (run_history cfg_now 10 eng_new h_stale_marks) in
+  threshold (fl (sm e)) <> initial_threshold /\ free (fl (sm e)) <> [] /\
+  nth 2 (globals e) VVoid = VRef 0 /\ val_okb e (nth 0 (heap e) VVoid) = true /\
+  (exists h b c, nth 0 (heap e) VVoid = VClo h b c /\ b <> []).
+Proof.
+  vm_compute. split; [discriminate|]. split; [discriminate|]. split; [reflexivity|]. split; [reflexivity|].
+  eexists. eexists. eexists. split; [reflexivity | discriminate].
+Qed.
 
 (* the same histories under the code as it is now: recycling happened and the invariant holds (non-vacuity) *)
 Lemma nonvacuous_l :
